@@ -42,7 +42,20 @@ META = {
                   "every generated definition is also run against the implementation); the driver's canonicalisation; "
                   "numpy linspace/cos/sin vs. the model's binary64 evaluation within 1e-9; RawMeshData.prepare / "
                   "SurfaceMesh construction keep the appended faces in order (checked by the correspondence); "
-                  "scipy ConvexHull (sphere_fibonacci) and loop subdivision (icosphere) are outside the model.",
+                  "scipy ConvexHull (sphere_fibonacci) and loop subdivision (icosphere) are outside the model. "
+                  "Deliberately left free: the exception class and message of a refusal (a parameter below the stated "
+                  "minimum may be refused with anything; only an ANSWER to it is a violation); whether numpy scalars, "
+                  "lists/arrays for points, all-positional calls and ints for booleans are accepted or refused (if "
+                  "answered, the answer must satisfy the property); the numbering of vertices, the order of the faces, "
+                  "edges and cells, the starting corner of a face row and which vertex is the apex of a ring (the "
+                  "implementation-side oracle counts half-edges and compares points as multisets and segments by their "
+                  "end positions, within 1e-9(1+|x|) relative to the radius/scale); the number of faces of cylinder and "
+                  "of unit_triangle (the text fixes validity and shape, not a count) and which diagonal splits a "
+                  "triangulated cell; the class of the returned object beyond surface / volume / polyline / point cloud "
+                  "as promised; extra attributes on the result, attribute names left on input meshes by dual_mesh, "
+                  "warnings, log lines, repr, dtypes of index rows; last-bit float differences from re-associated "
+                  "expressions. The Coq correspondence does compare the generated model's own numbering with the "
+                  "implementation; when only that differs the line is `no-failing-input-found`, never a VIOLATION.",
 }
 
 HEADER = """From Coq Require Import ZArith List Bool PrimFloat.
@@ -266,19 +279,68 @@ def vec_of(kw, name, default):
 
 
 def oracle(case, ob):
-    """The property sentence restated on one concrete call. Returns None or (class_key, message)."""
+    """The property sentence restated on one concrete call. Returns None or (class_key, message).
+    A call below a generator's minimum resolution may be refused (any exception); if it is answered, the answer is judged
+    like any other and a failure is reported as `<gen>/invalid-below-minimum`."""
+    g, kw = case["gen"], case.get("kw", {})
+    below = ob.get("exc") is None and not accepted(g, kw)
+    try:
+        r = _oracle(case, ob)
+    except Exception as ex:  # noqa
+        if not below:
+            raise
+        r = ("x", "the returned mesh cannot be judged (%r)" % (ex,))
+    if r and below:
+        return ("%s/invalid-below-minimum" % g, "%s(%s) is below the minimum resolution, was not refused, and returned an invalid mesh: %s"
+                % (g, short(kw), r[1]))
+    return r
+
+
+def same_points(X, want, tol=1e-9):
+    """the two point lists are equal as multisets (numbering is free)"""
+    if len(X) != len(want):
+        return False
+    left = [list(w) + [0.0] * (3 - len(w)) for w in want]
+    for p in X:
+        for j, w in enumerate(left):
+            if all(abs(a - b) <= tol * (1 + abs(b)) for a, b in zip(p, w)):
+                del left[j]
+                break
+        else:
+            return False
+    return True
+
+
+def same_segments(X, E, want, tol=1e-9):
+    """the edges, as unordered pairs of POSITIONS, are the wanted segments (numbering and direction free)"""
+    got = [(X[a], X[b]) for a, b in E]
+    if len(got) != len(want):
+        return False
+    left = list(want)
+    cl = lambda p, w: all(abs(a - b) <= tol * (1 + abs(b)) for a, b in zip(p, list(w) + [0.0] * (3 - len(w))))
+    for p, q in got:
+        for j, (u, v) in enumerate(left):
+            if (cl(p, u) and cl(q, v)) or (cl(p, v) and cl(q, u)):
+                del left[j]
+                break
+        else:
+            return False
+    return True
+
+
+def _oracle(case, ob):
     g, kw = case["gen"], case.get("kw", {})
     if ob.get("exc") is not None:
         if ob.get("defaults_unchanged") is False:
             return ("%s/default-mutated" % g, "%s(%s): the (failing) call changed a default parameter value" % (g, short(kw)))
         if not accepted(g, kw):
-            # a resolution below the generator's minimum must be refused by its own guard (a plain Exception with its message)
-            if ob.get("exc_type") == "Exception" and "Aborting" in ob["exc"]:
-                return None
-            return ("%s/rejected-by-accident" % g, "%s(%s) is below the minimum but failed with %s: %s instead of the guard's exception"
-                    % (g, short(kw), ob.get("exc_type"), ob["exc"][:160]))
+            return None   # below the minimum resolution: a refusal, whatever its exception class or message
         if not admissible(g, kw):
             return None
+        if case.get("form") and (set(case["form"]) & {"np", "aslist", "positional"} or any(
+                isinstance(v, int) and not isinstance(v, bool) and k in ("triangulate", "generate_uvs", "open", "uv", "volume", "colored", "fill_caps", "loop")
+                for k, v in kw.items())):
+            return None   # an argument FORM the property does not speak about (numpy scalars, 1 for True, lists, positional): may be refused
         return ("%s/exception" % g, "%s(%s) raised %s: %s" % (g, short(kw), ob.get("exc_type"), ob["exc"][:200]))
     if ob.get("defaults_unchanged") is False:
         return ("%s/default-mutated" % g, "%s(%s): the call changed the default value of one of its own optional parameters" % (g, short(kw)))
@@ -297,9 +359,8 @@ def oracle(case, ob):
         if not fr["second_equal"]:
             return ("%s/not-fresh" % g, "%s(%s): after the first result was edited in place a second call returns a different mesh: %s"
                     % (g, short(kw), json.dumps(fr["second"])[:300]))
-    if not accepted(g, kw):
-        return ("%s/not-rejected" % g, "%s(%s) is below the generator's minimum resolution and did not raise" % (g, short(kw)))
-    if not admissible(g, kw):
+    below = not accepted(g, kw)
+    if not below and not admissible(g, kw):
         return None
     V, F, X = ob["V"], ob["F"], ob["X"]
     tri = kw.get("triangulate", False)
@@ -335,18 +396,27 @@ def oracle(case, ob):
         return None
 
     def surface_type(tn="SurfaceMesh"):
-        return fail("type", "returned a %s, expected a %s" % (ob["type"], tn)) if ob["type"] != tn else None
+        # the class of the returned object is left free; what matters: a volume has cells, a point cloud has no faces
+        if tn == "VolumeMesh" and not ob["C"]:
+            return fail("type", "no cell although a volume was requested")
+        if tn == "PointCloud" and (F or ob["E"]):
+            return fail("type", "faces/edges although only points were requested")
+        return None
+
+    def corners(P, key="corners"):
+        return None if same_points(X, P) else fail(key, "the vertices %s are not the requested corners %s"
+                                                   % ([[round(t, 6) for t in p] for p in X[:8]], [[round(t, 6) for t in p] for p in P[:8]]))
 
     if g == "triangle":
         P = [kw[k]["vec"] for k in ("P0", "P1", "P2")]
         return first(surface_type(), counts(3, 1), lambda: shape("disk"),
-                     lambda: on(lambda i, p: all(close(a, b) for a, b in zip(p, P[i])), "the requested corner", "corners"))
+                     lambda: corners(P))
     if g == "quad":
         P0, P1, P2 = (kw[k]["vec"] for k in ("P0", "P1", "P2"))
         P3 = [b + c - a for a, b, c in zip(P0, P1, P2)]
         want = [P0, P1, P3, P2]
         return first(surface_type(), counts(4, 2 if tri else 1), lambda: arity(3 if tri else 4), lambda: shape("disk"),
-                     lambda: on(lambda i, p: all(close(a, b) for a, b in zip(p, want[i])), "the requested corner", "corners"))
+                     lambda: corners(want))
     if g == "unit_grid":
         nu, nv = kw["nu"], kw["nv"]
         r = first(surface_type(), counts(nu * nv, (nu - 1) * (nv - 1) * (2 if tri else 1), "counts-nu%snv" % ("=" if nu == nv else "!=")),
@@ -363,14 +433,12 @@ def oracle(case, ob):
             for i, (p, u) in enumerate(zip(X, ob["uv"])):
                 if not (close(p[0], u[0]) and close(p[1], u[1])):
                     return fail("uvs-nu%snv" % ("=" if nu == nv else "!="), "uv of vertex %d is %s, position %s" % (i, u, p[:2]))
-        elif "uv_coords" in ob["vattrs"]:
-            return fail("uvs", "uv_coords generated although generate_uvs=False")
         return None
     if g == "unit_triangle":
         nu, nv = kw["nu"], kw["nv"]
         rel = "=" if nu == nv else ("<" if nu < nv else ">")
         r = first(surface_type(),
-                  (lambda: counts(nu * (nu + 1) // 2, (nu - 1) ** 2)) if nu == nv else None,
+                  (lambda: counts(nu * (nu + 1) // 2, None)) if nu == nv else None,
                   lambda: arity(3, "arity"),
                   lambda: shape("disk", "shape-nu%snv" % rel),
                   lambda: on(lambda i, p: -1e-12 <= p[0] <= 1 + 1e-12 and -1e-12 <= p[1] <= 1 + 1e-12 and p[2] == 0, "in the unit square"))
@@ -390,7 +458,7 @@ def oracle(case, ob):
                      counts(4, 4), lambda: shape("sphere", "orientation"),
                      lambda: (fail("volume", "volume=%s but cells are %s" % (vol, ob["C"]))
                               if (sorted(map(sorted, ob["C"])) != ([[0, 1, 2, 3]] if vol else [])) else None),
-                     lambda: on(lambda i, p: all(close(a, b) for a, b in zip(p, P[i])), "the requested corner", "corners"))
+                     lambda: corners(P))
     if g in ("hexahedron", "axis_aligned_cube", "hexahedron_4pts"):
         vol = kw.get("volume", False)
         if g == "hexahedron":
@@ -403,7 +471,7 @@ def oracle(case, ob):
             Xv, Yv = vsub(P2, P1), vsub(P3, P1)
             ad = lambda *vs: [sum(c) for c in zip(*vs)]
             P = [P1, ad(P1, Xv), ad(P1, Xv, Yv), ad(P1, Yv), P4, ad(P4, Xv), ad(P4, Xv, Yv), ad(P4, Yv)]
-        r = first(surface_type("VolumeMesh" if vol else "SurfaceMesh", ) if True else None)
+        r = None if bool(ob["C"]) == bool(vol) else True
         if r:
             return fail("volume-switch", "volume=%s, triangulate=%s but the result is a %s with %d cells and %d faces of sizes %s"
                         % (vol, tri, ob["type"], len(ob["C"]), len(F), sorted(set(len(f) for f in F))))
@@ -416,9 +484,7 @@ def oracle(case, ob):
                 return r
             if kw.get("colored") and "color" not in ob["fattrs"]:
                 return fail("colored", "colored=True but no color attribute on faces")
-            if not kw.get("colored") and "color" in ob["fattrs"]:
-                return fail("colored", "color attribute although colored=False")
-        return on(lambda i, p: all(close(a, b) for a, b in zip(p, P[i])), "the requested corner", "corners")
+        return corners(P)
     if g in ("octahedron", "dodecahedron"):
         v, f = (6, 8) if g == "octahedron" else (20, 12)
         r0 = vnorm(X[0]) if X else 0
@@ -448,12 +514,14 @@ def oracle(case, ob):
         ax = [a / L for a in ax]
 
         def onc(i, p):
-            if i >= 2 * N:
-                return all(close(a, b) for a, b in zip(p, (P1, P2)[i - 2 * N]))
-            base = P1 if i < N else P2
-            d = vsub(p, base)
-            return abs(vdot(d, ax)) <= 1e-9 * (abs(r) + 1e-6 * L) and at_dist(p, base, r)
-        return first(surface_type(), counts(2 * N + (2 if caps else 0), 4 * N if caps else 2 * N), lambda: arity(3, "arity"),
+            for base in (P1, P2):
+                d = vsub(p, base)
+                if caps and vnorm(d) <= 1e-9 * (abs(r) + L):
+                    return True          # a cap centre
+                if abs(vdot(d, ax)) <= 1e-9 * (abs(r) + 1e-6 * L) and at_dist(p, base, r):
+                    return True          # on the rim of that end
+            return False
+        return first(surface_type(), counts(2 * N + (2 if caps else 0), None),
                      lambda: shape("sphere" if caps else "annulus"),
                      lambda: on(onc, "at distance radius=%s from the axis in the end plane / the cap centre" % r))
     if g == "torus":
@@ -471,46 +539,61 @@ def oracle(case, ob):
     if g == "ring":
         N, k, op = kw["N"], kw.get("n_cover", 1), kw.get("open", False)
         d = max(min(kw["defect"], 2 * math.pi - 0.01), 0.)
-        r = first(surface_type(), counts(N * k + (2 if op else 1), N * k), lambda: arity(3, "arity"), lambda: shape("disk"),
-                  lambda: on(lambda i, p: i == 0 or (close(math.hypot(p[0], p[1]), 1.0) and p[2] == 0), "on the unit circle"))
+        r = first(surface_type(), counts(N * k + (2 if op else 1), N * k), lambda: arity(3, "arity"), lambda: shape("disk"))
         if r:
             return r
-        tot = sum(angle(X[f[1]], X[f[0]], X[f[2]]) for f in F if f[0] == 0)
-        if abs(tot - k * (2 * math.pi - d)) > 1e-4 * k:
-            return fail("defect", "apex angle sum %.6f, requested %.6f (defect %.6f, n_cover %d)" % (tot, k * (2 * math.pi - d), d, k))
-        return None
+        common = sorted(set(F[0]).intersection(*[set(f) for f in F]))
+        if not common:
+            return fail("apex", "the triangles do not share an apex vertex")
+        res = None
+        for apex in common:     # with one or two triangles several vertices are common: any of them may be the apex
+            res = on(lambda i, p: i == apex or (close(math.hypot(p[0], p[1]), 1.0) and abs(p[2]) <= 1e-12), "on the unit circle")
+            if res is None:
+                tot = sum(angle(X[f[(f.index(apex) + 1) % 3]], X[apex], X[f[(f.index(apex) + 2) % 3]]) for f in F)
+                if abs(tot - k * (2 * math.pi - d)) > 1e-4 * k:
+                    res = fail("defect", "apex angle sum %.6f, requested %.6f (defect %.6f, n_cover %d)" % (tot, k * (2 * math.pi - d), d, k))
+            if res is None:
+                return None
+        return res
     if g == "flat_ring":
         N, k = kw["N"], kw.get("n_cover", 1)
         d = max(min(kw["defect"], 2 * math.pi - 0.01), 0.)
-        r = first(surface_type(), counts(N * k + 2, N * k), lambda: arity(3, "arity"), lambda: shape("disk"),
-                  lambda: on(lambda i, p: p[2] == 0 and (i == 0 and vnorm(p) == 0 or i > 0 and close(vnorm(p), 1.0)), "on the flat unit circle"))
+        r = first(surface_type(), counts(N * k + 2, N * k), lambda: arity(3, "arity"), lambda: shape("disk"))
         if r:
             return r
-        for f in F:
-            a = angle(X[f[1]], X[f[0]], X[f[2]])
-            if abs(a - (2 * math.pi - d) / N) > 1e-9:
-                return fail("defect", "apex angle %.9f of face %s, requested %.9f" % (a, f, (2 * math.pi - d) / N))
-        return None
+        common = sorted(set(F[0]).intersection(*[set(f) for f in F]))
+        if not common:
+            return fail("apex", "the triangles do not share an apex vertex")
+        res = None
+        for apex in common:
+            res = on(lambda i, p: abs(p[2]) <= 1e-12 and (vnorm(p) <= 1e-12 if i == apex else close(vnorm(p), 1.0)), "on the flat unit circle")
+            if res is None:
+                for f in F:
+                    j = f.index(apex)
+                    a = angle(X[f[(j + 1) % 3]], X[apex], X[f[(j + 2) % 3]])
+                    if abs(a - (2 * math.pi - d) / N) > 1e-9:
+                        res = fail("defect", "apex angle %.9f of face %s, requested %.9f" % (a, f, (2 * math.pi - d) / N))
+                        break
+            if res is None:
+                return None
+        return res
     if g == "chain_of_vertices":
         pts = kw["vertices"]["arr"]
         n, lp = len(pts), kw.get("loop", False)
-        want = sorted(tuple(sorted((i, (i + 1) % n))) for i in range(n if lp else n - 1))
-        got = sorted(tuple(sorted(e)) for e in ob["E"])
-        if ob["type"] != "PolyLine" or V != n or got != want or F:
-            return fail("edges", "%s with %d vertices, edges %s; expected the %s chain %s" % (ob["type"], V, got, "closed" if lp else "open", want))
-        return on(lambda i, p: all(close(a, b) for a, b in zip(p, list(pts[i]) + [0] * (3 - len(pts[i])))), "the input point", "corners")
+        want = [(pts[i], pts[(i + 1) % n]) for i in range(n if lp else n - 1)]
+        if V != n or F or not same_points(X, pts) or not same_segments(X, ob["E"], want):
+            return fail("edges", "%d vertices, edges %s: not the %s chain through the %d input points in order"
+                        % (V, sorted(tuple(sorted(e)) for e in ob["E"]), "closed" if lp else "open", n))
+        return None
     if g == "vector_field":
         o, v, mlt = kw["origins"]["arr"], kw["vectors"]["arr"], kw.get("length_mult", 1.0)
         n = len(o)
-        got = sorted(tuple(sorted(e)) for e in ob["E"])
-        if ob["type"] != "PolyLine" or V != 2 * n or got != [(2 * i, 2 * i + 1) for i in range(n)]:
-            return fail("edges", "%s with %d vertices, edges %s" % (ob["type"], V, got))
-
-        def pt(i):
-            oo = list(o[i // 2]) + [0] * (3 - len(o[i // 2]))
-            vv = list(v[i // 2]) + [0] * (3 - len(v[i // 2]))
-            return oo if i % 2 == 0 else [a + mlt * b for a, b in zip(oo, vv)]
-        return on(lambda i, p: all(close(a, b) for a, b in zip(p, pt(i))), "origin / origin + length_mult * vector", "corners")
+        pad = lambda w: list(w) + [0.0] * (3 - len(w))
+        want = [(pad(o[i]), [a + mlt * b for a, b in zip(pad(o[i]), pad(v[i]))]) for i in range(n)]
+        if V != 2 * n or F or not same_segments(X, ob["E"], want):
+            return fail("edges", "%d vertices, edges %s: not one segment origin -> origin + length_mult * vector per input point"
+                        % (V, sorted(tuple(sorted(e)) for e in ob["E"])))
+        return None
     if g == "dual_mesh":
         src = (ob.get("inputs") or {}).get("mesh") or case["_src_obs"]
         ts = topo(src["V"], src["F"])
